@@ -20,6 +20,7 @@ import (
 	"bytes"
 	"fmt"
 	"io"
+	"strings"
 
 	"github.com/go-netty/go-netty"
 	"github.com/go-netty/go-netty/codec"
@@ -91,6 +92,13 @@ func (d *delimiterCodec) HandleWrite(ctx netty.OutboundContext, message netty.Me
 			d.delimiter,
 		})
 	default:
+		switch message.(type) {
+		case string, *bytes.Buffer, *bytes.Reader, *strings.Reader:
+			// sized in-memory messages: body and delimiter must reach the transport as ONE write,
+			// otherwise a concurrent writer's message can land between the body and its delimiter
+			ctx.HandleWrite([][]byte{utils.MustToBytes(message), d.delimiter})
+			return
+		}
 		ctx.HandleWrite(io.MultiReader(
 			// body
 			utils.MustToReader(message),
